@@ -122,6 +122,11 @@ func init() {
 				} else if ok && len(o.key) != 0 {
 					ok = false // no key fields configured: no key
 				}
+				if strings.HasPrefix(a[1], "yamlj:") {
+					// the partition key itself (compared with Model/Format.v msg_key)
+					t.S("k")
+					t.B(o.key)
+				}
 				if ok {
 					t.S("keyok")
 				} else {
